@@ -30,6 +30,9 @@ const (
 	KStmtQuery Kind = "stmt-query"
 	KStmtClose Kind = "stmt-close"
 	KRowsClose Kind = "rows-close"
+	// KRowsNext: the first step of a result set (only recorded and offered to the hook when Recorder.NextFaults is
+	// set): SQLite reports the constraint violation of an INSERT ... RETURNING while stepping, not from the query call
+	KRowsNext  Kind = "rows-next"
 	KCommit    Kind = "commit"
 	KRollback  Kind = "rollback"
 	KConnClose Kind = "conn-close"
@@ -91,19 +94,21 @@ type Hook func(ev *Event) error
 // Recorder holds the event log and the counters derived from it (updated under
 // the same mutex, so the monitor's own state is never the race).
 type Recorder struct {
-	mu        sync.Mutex
-	events    []Event
-	seq       int64
-	ids       int64
-	OpenTx    int
-	OpenStmts int
-	OpenRows  int
-	OpenConns int
-	hook      atomic.Value // Hook
-	CtxKey    interface{}
-	openStmtQ map[int64]string
-	crashed   int32
-	live      map[int64]*conn
+	// NextFaults: the first Next of every result set is an event (rows-next) and a fault point
+	NextFaults bool
+	mu         sync.Mutex
+	events     []Event
+	seq        int64
+	ids        int64
+	OpenTx     int
+	OpenStmts  int
+	OpenRows   int
+	OpenConns  int
+	hook       atomic.Value // Hook
+	CtxKey     interface{}
+	openStmtQ  map[int64]string
+	crashed    int32
+	live       map[int64]*conn
 	// FirstIDMode makes LastInsertId report the first id of a multi-row insert
 	// (MySQL-like) instead of the last (SQLite).
 	FirstIDMode bool
@@ -384,7 +389,7 @@ func (c *conn) QueryContext(ctx context.Context, query string, args []driver.Nam
 		return nil, err
 	}
 	c.rec.finish(idx, e.Seq, nil, false, func() { c.rec.OpenRows++ })
-	return &rows{base: rs.(*sqlite3.SQLiteRows), c: c}, nil
+	return &rows{base: rs.(*sqlite3.SQLiteRows), c: c, query: query}, nil
 }
 
 func (c *conn) Ping(ctx context.Context) error { return c.base.Ping(ctx) }
@@ -509,13 +514,15 @@ func (s *stmt) QueryContext(ctx context.Context, args []driver.NamedValue) (driv
 		return nil, err
 	}
 	s.c.rec.finish(idx, e.Seq, nil, false, func() { s.c.rec.OpenRows++ })
-	return &rows{base: rs.(*sqlite3.SQLiteRows), c: s.c}, nil
+	return &rows{base: rs.(*sqlite3.SQLiteRows), c: s.c, query: s.query}, nil
 }
 
 type rows struct {
 	base   *sqlite3.SQLiteRows
 	c      *conn
 	closed int32
+	query  string
+	nexted int32
 }
 
 func (r *rows) Columns() []string { return r.base.Columns() }
@@ -529,6 +536,15 @@ func (r *rows) Close() error {
 	return err
 }
 func (r *rows) Next(dest []driver.Value) error {
+	if r.c.rec.NextFaults && atomic.CompareAndSwapInt32(&r.nexted, 0, 1) {
+		e := r.c.ev(nil, KRowsNext, r.query, nil)
+		idx := r.c.rec.record(e)
+		if herr := r.c.rec.callHook(e); herr != nil {
+			r.c.rec.finish(idx, e.Seq, herr, true, nil)
+			return herr
+		}
+		r.c.rec.finish(idx, e.Seq, nil, false, nil)
+	}
 	err := r.base.Next(dest)
 	if err != nil && err != io.EOF {
 		return err
